@@ -365,7 +365,7 @@ pub fn drive_framing(s: &mut Session, rng: &mut Rng, scale: usize) {
 }
 
 /// short byte sequences, exhaustively, after each of a set of wire-state prefixes
-pub fn drive_short(s: &mut Session, rng: &mut Rng, full: bool) {
+pub fn drive_short(s: &mut Session, rng: &mut Rng, full: bool, shard: Option<usize>) {
     let c = rng.below(16) as u8;
     let f = (c + 1) % 16;
     let prefixes: Vec<Vec<u8>> = vec![
@@ -397,7 +397,12 @@ pub fn drive_short(s: &mut Session, rng: &mut Rng, full: bool) {
         a.dedup();
         a
     };
-    for p in prefixes.iter() {
+    for (pi, p) in prefixes.iter().enumerate() {
+        if let Some(k) = shard {
+            if pi % 4 != k {
+                continue;
+            }
+        }
         // length 1: all 256 values
         for b in 0..=255u8 {
             s.start(c, "framing");
@@ -546,6 +551,10 @@ pub fn rerun(lines: &[serde_json::Value], out: &mut Out) {
 pub fn record(driver: &str, seed: u64, thorough: bool, out: &mut Out) -> Stats {
     let mut rng = Rng::new(seed ^ 0x6d69_6469);
     let mut s = Session::new(out);
+    let (driver, shard) = match driver.split_once(':') {
+        Some((n, k)) => (n, k.parse::<usize>().ok()),
+        None => (driver, None),
+    };
     match driver {
         "kbd" => {
             if thorough {
@@ -557,7 +566,7 @@ pub fn record(driver: &str, seed: u64, thorough: bool, out: &mut Out) -> Stats {
         "framing" => {
             drive_framing(&mut s, &mut rng, if thorough { 6 } else { 1 });
         }
-        "short" => drive_short(&mut s, &mut rng, thorough),
+        "short" => drive_short(&mut s, &mut rng, thorough, shard),
         "ctl" => drive_ctl(&mut s, &mut rng, thorough),
         _ => {
             eprintln!("unknown midi driver {}", driver);
